@@ -218,6 +218,36 @@ fn utf8_decision<const N: usize>() {
     }
 }
 
+/// The decision depends on the bytes AT THE TIME of the conversion: a buffer is converted, rewritten in place (same
+/// address, same length, arbitrary new bytes) and converted again - each conversion is accepted exactly when the bytes
+/// it sees are valid UTF-8.
+fn utf8_decision_after_rewrite<const N: usize>() {
+    let mut bytes: [u8; N] = nd::any();
+    let len = nd::range(0, N);
+    let first = ref_utf8(&bytes[..len]);
+    {
+        let cs = CSliceRef::from(&bytes[..len]);
+        assert!(<&str>::try_from(cs).is_ok() == first);
+    }
+    let newb: [u8; N] = nd::any();
+    let mut i = 0;
+    while i < N {
+        bytes[i] = newb[i];
+        i += 1;
+    }
+    let second = ref_utf8(&bytes[..len]);
+    nd::cover!(first && !second, "valid, then rewritten with invalid bytes");
+    nd::cover!(!first && second, "invalid, then rewritten with valid bytes");
+    {
+        let cs = CSliceRef::from(&bytes[..len]);
+        assert!(<&str>::try_from(cs).is_ok() == second, "refused exactly for invalid UTF-8, whatever was converted before");
+    }
+    {
+        let cm = CSliceMut::from(&mut bytes[..len]);
+        assert!(<&mut str>::try_from(cm).is_ok() == second);
+    }
+}
+
 /// String views: a valid string (symbolic bytes assumed valid by the reference acceptor) goes to
 /// CSliceRef / CSliceMut and back with the same address, length and bytes.
 fn str_rt<const N: usize>() {
@@ -269,6 +299,7 @@ fn str_rt<const N: usize>() {
 nd::harnesses! {
     #[kani::unwind(6)] fn c12_sliceref_u8_4() { sliceref_rt::<u8, 4>() }
     #[kani::unwind(6)] fn c12_sliceref_u64_4() { sliceref_rt::<u64, 4>() }
+    #[kani::unwind(6)] fn c12_utf8_decision_after_rewrite_3() { utf8_decision_after_rewrite::<3>() }
     #[kani::unwind(6)] fn c12_sliceref_zst_4() { sliceref_rt::<Zst, 4>() }
 
     /// A slice of zero-sized elements may have ANY length up to usize::MAX: shared and mutable view keep it.
